@@ -3,7 +3,7 @@ import json, os, sys, time, traceback
 
 VERIF = os.path.abspath(os.path.join(os.path.dirname(__file__), '..', '..'))
 # evidence is only ever written for /repo itself; runs against scratch copies (checker validation) go elsewhere
-EVDIR = os.path.join(VERIF, 'evidence') if os.environ.get('MCV_REPO', '/repo') == '/repo' else '/tmp/mcv-evidence'
+EVDIR = os.path.join(VERIF, 'evidence') if os.environ.get('MCV_REPO', '/repo') == '/repo' else os.environ.get('MCV_EVDIR', '/tmp/mcv-evidence')
 
 
 class Ctx:
